@@ -836,6 +836,27 @@ func c12EndAlphabet() []Op {
 		al = append(al, mkPrint(redact.RedactableString(x)), mkPrint(redact.RedactableBytes(x)))
 	}
 	al = append(al, mkPrint(), mkPrint(""), mkPrintf(""), mkPrintf("%s%s", redact.RedactableString(mEnd), ""), mkOp(kUnsafeString, ""), mkOp(kSafeString, ""), mkOp(kUnsafeBytes, ""), mkOp(kWrite, ""))
+	// a LONG and a SHORT operand of every kind the printer may keep scratch memory for (a recycled printer that
+	// remembers the longer one shows it on the shorter one): byte arrays by value, in a struct, as map value;
+	// byte slices, strings, integer slices, maps, paddings, precisions
+	type arrS struct {
+		A [6]byte
+		B [2]byte
+	}
+	al = append(al,
+		mkPrintf("%x|%s|%q|%X", [16]byte{'s', 'e', 'c', 'r', 'e', 't', '-', 'k', 'e', 'y', '-', '0', '1', '2', '3', '4'}, [9]byte{'l', 'o', 'n', 'g', 'a', 'r', 'r', 'a', 'y'}, [5]byte{'q', 'u', 'o', 't', 'e'}, [7]byte{1, 2, 3, 4, 5, 6, 7}),
+		mkPrintf("%x|%s|%q|%X", [4]byte{0xde, 0xad, 0xbe, 0xef}, [2]byte{'h', 'i'}, [1]byte{'q'}, [0]byte{}),
+		mkPrintf("%x %s", arrS{[6]byte{'s', 't', 'r', 'u', 'c', 't'}, [2]byte{'a', 'b'}}, map[string][3]byte{"k": {'m', 'a', 'p'}}),
+		mkPrintf("%x %s", arrS{}, map[string][1]byte{"k": {'z'}}),
+		mkPrintf("%x|%q|%s", []byte("a-long-byte-slice-operand"), "a long string operand with several words", strings.Repeat("y", 100)),
+		mkPrintf("%x|%q|%s", []byte("b"), "s", ""),
+		mkPrintf("%v|%d", []int{1, 2, 3, 4, 5, 6, 7, 8, 9, 10, 11, 12}, map[string]int{"a": 1, "b": 2, "c": 3, "d": 4, "e": 5}),
+		mkPrintf("%v|%d", []int{1}, map[string]int{"z": 26}),
+		mkPrintf("%40d|%-30s|%.20f|%030.10x", 5, "pad", 3.14159, 255),
+		mkPrintf("%2d|%-1s|%.1f|%01.1x", 5, "pad", 3.14159, 255),
+		mkPrintf("%U|%#U|%c|%e", 0x1F600, 0x1F600, 0x1F600, 1e300),
+		mkPrintf("%U|%#U|%c|%e", 0x41, 0x41, 0x41, 1.5),
+	)
 	return al
 }
 
@@ -942,6 +963,44 @@ func c12EndStates(c *Ctx) {
 			break
 		}
 	}
+	// every operation of the alphabet as the probe (alone in a later call) after every body of <= pd operations
+	pd := 1
+	if !c.Quick() {
+		pd = 2
+	}
+	opRefs := make([]string, len(al))
+	c12Pool.cold = true
+	for k := range al {
+		vsync.Clear()
+		opRefs[k] = clone(c12EndRun(0, []*Op{&al[k]}))
+	}
+	c12Pool.cold = false
+	en2 := NewSeqEnum(len(al), pd)
+	for i := 0; i < en2.Total && sec.Exhaustive; i++ {
+		idx := en2.Get(i, nil)
+		ops := make([]*Op, len(idx))
+		for j, k := range idx {
+			ops[j] = &al[k]
+		}
+		for route := 0; route < 2; route++ {
+			for k := range al {
+				sec.Evaluations++
+				vsync.Clear()
+				c12EndRun(route, ops)
+				if got := clone(c12EndRun(0, []*Op{&al[k]})); got != opRefs[k] {
+					names := make([]string, len(idx))
+					for j, kk := range idx {
+						names[j] = al[kk].Name
+					}
+					w.Fail("end-state", c12EndCase{Ops: append([]int(nil), idx...), Names: names, Route: route, Probe: -1 - k}, fmt.Sprintf("after %s with body %v, the call Sprintfn{%s} returns %q; from a cold pool it returns %q", c12EndRoutes[route], names, al[k].Name, got, opRefs[k]))
+				}
+			}
+		}
+		if c.TimeUp() {
+			sec.Exhaustive = false
+		}
+	}
+	sec.Extra["probe_all_operations_after_bodies_of_depth"] = pd
 	sec.Distinct = int64(en.Total)
 	sec.Extra["gets_served_by_recycled_printer"] = c12Pool.recycled - r0
 	c.sections = append(c.sections, sec)
@@ -1006,6 +1065,23 @@ func init() {
 		defer func() { c12Ch.quiet = false }()
 		al := c12EndAlphabet()
 		precomputeRaw(al)
+		if cs.Probe < 0 {
+			k := -1 - cs.Probe
+			c12Pool.cold = true
+			vsync.Clear()
+			ref := clone(c12EndRun(0, []*Op{&al[k]}))
+			c12Pool.cold = false
+			ops := make([]*Op, len(cs.Ops))
+			for j, kk := range cs.Ops {
+				ops[j] = &al[kk]
+			}
+			vsync.Clear()
+			c12EndRun(cs.Route, ops)
+			if got := clone(c12EndRun(0, []*Op{&al[k]})); got != ref {
+				return fmt.Sprintf("after %s with body %v, the call Sprintfn{%s} returns %q; from a cold pool it returns %q", c12EndRoutes[cs.Route], cs.Names, al[k].Name, got, ref)
+			}
+			return ""
+		}
 		return c12EndEval(al, cs.Ops, cs.Route, cs.Probe, c12EndRefs())
 	}
 	replayers["C12/schedules"] = func(c *Ctx, raw json.RawMessage) string {
